@@ -152,7 +152,7 @@ Definition cert_lex (L : lexicon) (rows : list row) (fuel : nat) : bool :=
   end.
 
 (* ---------- correspondence-check entry for C04 ---------- *)
-Definition dec_lex (x : string * string) : lexicon := mkLex (u32s_of_bytes (hex_bytes (fst x))) (hex_bytes (snd x)).
+Definition dec_lex (x : string * string) : lexicon := mkLex (u32s_of_bytes (hexz_bytes (fst x))) (hex_bytes (snd x)).
 Definition dec_rows (rs : list (string * Z)) : list row := map (fun r => (hex_bytes (fst r), snd r)) rs.
 
 Fixpoint check_offsets (lexs : list lexicon) (rows : list (list row)) (text : list N) (off : nat)
